@@ -2,6 +2,7 @@ import CgtModel.Report
 import CgtModel.Props.C02
 import CgtModel.Lemmas.SpecPerm
 import CgtModel.Lemmas.SpecTable
+import CgtModel.Props.C01
 /-! # C06 — the report does not depend on line order, file split or fill splitting
 
 Full statement: permuting the input lines, distributing them over files, or recording one trade as
@@ -21,16 +22,20 @@ Proved here (partial — what is missing is listed at the end):
 * `C06_statute_permutation_invariant`, `C06_statute_fill_invariant` — the independent statutory
   evaluation (`Spec`, the oracle C01 compares the real matcher with on every run) is invariant under
   every permutation of the input lines, for every ledger with valid dates, and absorbs two same-day
-  fills exactly as the one trade with the same total quantity, consideration and fees. Together
-  with C01's equality "matcher = Spec" (evaluated on the real code, not proved) this is the
-  property; what remains unproved is that equality, not the invariance.
-Not proved: that `daysOf t (preprocess l)` is invariant under permutation of `l` (stable sort +
-adjacent merge + coalescing + grouping commute with permutation up to the order of same-day SELL
-lines). The check exercises exactly that on the real code: every generated ledger is re-run under
-random permutations and random fill splittings and the reports are compared.
+  fills exactly as the one trade with the same total quantity, consideration and fees.
+* `C06_ledger_perm`, `C06_ledger_fills` — **for the matcher model, from the raw ledger** (through C01's
+  `C01_ledger_raw`, matcher = `Spec`): two orders of the same lines, or a purchase recorded as two
+  same-day fills, both ledgers validator-clean with valid dates and accepted: every security without
+  capital events whose SELL lines fall on different days has the same legs (rule, quantity, allowable
+  cost, acquisition date, in order) and the same closing pool.
+Not proved: the same for securities with capital events or with several SELL lines on one day (there the
+leg partition does follow line adjacency: known finding D17), and SELL fills at ledger level (two SELL
+lines on a day leave the class; at `Spec` level they are covered by `C06_statute_fill_invariant`). The
+check exercises all of it on the real code: every generated ledger is re-run under random permutations,
+random fill splittings and real multi-file CLI partitions and the reports are compared.
 -/
 namespace Cgt.C06
-open Cgt
+open Cgt Spec
 
 theorem C06_sort_is_permutation (l : List Tx) : (sortByDate l).Perm l := List.mergeSort_perm l _
 
@@ -113,5 +118,92 @@ example : Spec.DatesOk [⟨⟨2024, 2, 29⟩, "A", .buy 10 2 1⟩, ⟨⟨2024, 3
   intro t ht
   simp only [List.mem_cons, List.mem_nil_iff, or_false] at ht
   rcases ht with rfl | rfl <;> exact Date.ok_of_valid _ (by decide) (by decide)
+
+/-! ### the matcher model, from the raw ledger -/
+
+theorem wellFormed_perm (l l' : List Tx) (hp : l.Perm l') (h : WellFormed l) : WellFormed l' :=
+  fun t ht => h t (hp.mem_iff.mpr ht)
+
+theorem datesOk_perm (l l' : List Tx) (hp : l.Perm l') (h : Spec.DatesOk l) : Spec.DatesOk l' :=
+  fun t ht => h t (hp.mem_iff.mpr ht)
+
+theorem noEventLines_perm (t : String) (l l' : List Tx) (hp : l.Perm l') (h : noEventLines t l) : noEventLines t l' :=
+  fun x hx => h x (hp.mem_iff.mpr hx)
+
+theorem oneSellPerDay_perm (t : String) (l l' : List Tx) (hp : l.Perm l') (h : oneSellPerDay t l) : oneSellPerDay t l' := by
+  unfold oneSellPerDay sellOrds at *
+  exact ((List.Perm.flatMap_right (so t) hp).nodup_iff).mp h
+
+/-- **C06 for the matcher model, from the raw ledger**: two orders of the same lines (any permutation:
+    shuffled lines, lines dealt over several files and concatenated), validator-clean, valid dates, both
+    accepted: every security without capital events whose SELL lines fall on different days has the same
+    legs (rule, quantity, allowable cost, acquisition date, in order) and the same closing pool. -/
+theorem C06_ledger_perm (l l' : List Tx) (hp : l.Perm l') (hw : WellFormed l) (hd : Spec.DatesOk l)
+    (rs rs' : List TickerResult) (h : run bnbWindowDays l = .ok rs) (h' : run bnbWindowDays l' = .ok rs') :
+    ∀ r ∈ rs, ∀ r' ∈ rs', r'.ticker = r.ticker → noEventLines r.ticker l → oneSellPerDay r.ticker l →
+      r'.legs.map legView = r.legs.map legView ∧ poolQ' r'.pool = poolQ' r.pool ∧ poolC' r'.pool = poolC' r.pool := by
+  intro r hr r' hr' ht hne hone
+  have c := C01.C01_ledger_raw l hw hd rs h r hr hne hone
+  have c' := C01.C01_ledger_raw l' (wellFormed_perm l l' hp hw) (datesOk_perm l l' hp hd) rs' h' r' hr'
+    (ht ▸ noEventLines_perm r.ticker l l' hp hne) (ht ▸ oneSellPerDay_perm r.ticker l l' hp hone)
+  simp only at c c'
+  rw [ht, ← Spec.identify_perm bnbWindowDays r.ticker l l' hp hd] at c'
+  exact ⟨by rw [c'.2.2, c.2.2], by rw [← c'.1, ← c.1], by rw [← c'.2.1, ← c.2.1]⟩
+
+
+theorem table_fills (ticker t : String) (D : Date) (q1 p1 f1 q2 p2 f2 q p f : Rat)
+    (hq : q1 + q2 = q) (hc : q1 * p1 + q2 * p2 = q * p) (hf : f1 + f2 = f) (l0 : List Tx) :
+    table ticker (l0 ++ [⟨D, t, .buy q1 p1 f1⟩, ⟨D, t, .buy q2 p2 f2⟩]) = table ticker (l0 ++ [⟨D, t, .buy q p f⟩]) := by
+  rw [table_eq_insFold, table_eq_insFold, insFold_append, insFold_append]
+  by_cases h : t = ticker
+  · subst h
+    simp only [insFold_cons, if_true]
+    show Spec.insert _ (Spec.insert _ _) = Spec.insert _ _
+    exact insert_pair ⟨D, t, .buy q1 p1 f1⟩ ⟨D, t, .buy q2 p2 f2⟩ ⟨D, t, .buy q p f⟩ rfl rfl
+      (fun d => Spec.absorb_fills_buy d q1 p1 f1 q2 p2 f2 q p f hq hc hf) _
+  · simp only [insFold_cons, h, if_false]
+
+/-- **… and a purchase recorded as two same-day fills** with the same total quantity, consideration and
+    fees (at the end of the ledger; any other position by `C06_ledger_perm`): same legs, same closing pool -/
+theorem C06_ledger_fills (t : String) (D : Date) (q1 p1 f1 q2 p2 f2 q p f : Rat)
+    (hq : q1 + q2 = q) (hc : q1 * p1 + q2 * p2 = q * p) (hf : f1 + f2 = f) (l0 : List Tx)
+    (hw : WellFormed (l0 ++ [⟨D, t, .buy q p f⟩])) (hd : Spec.DatesOk (l0 ++ [⟨D, t, .buy q p f⟩]))
+    (hw' : WellFormed (l0 ++ [⟨D, t, .buy q1 p1 f1⟩, ⟨D, t, .buy q2 p2 f2⟩]))
+    (rs rs' : List TickerResult) (h : run bnbWindowDays (l0 ++ [⟨D, t, .buy q p f⟩]) = .ok rs)
+    (h' : run bnbWindowDays (l0 ++ [⟨D, t, .buy q1 p1 f1⟩, ⟨D, t, .buy q2 p2 f2⟩]) = .ok rs') :
+    ∀ r ∈ rs, ∀ r' ∈ rs', r'.ticker = r.ticker →
+      noEventLines r.ticker (l0 ++ [⟨D, t, .buy q p f⟩]) → oneSellPerDay r.ticker (l0 ++ [⟨D, t, .buy q p f⟩]) →
+      r'.legs.map legView = r.legs.map legView ∧ poolQ' r'.pool = poolQ' r.pool ∧ poolC' r'.pool = poolC' r.pool := by
+  intro r hr r' hr' ht hne hone
+  have hd' : Spec.DatesOk (l0 ++ [⟨D, t, .buy q1 p1 f1⟩, ⟨D, t, .buy q2 p2 f2⟩]) := by
+    intro x hx
+    simp only [List.mem_append, List.mem_cons, List.mem_nil_iff, or_false] at hx
+    rcases hx with hx | rfl | rfl
+    · exact hd x (by simp [hx])
+    · exact hd ⟨D, t, .buy q p f⟩ (by simp)
+    · exact hd ⟨D, t, .buy q p f⟩ (by simp)
+  have hne' : noEventLines r.ticker (l0 ++ [⟨D, t, .buy q1 p1 f1⟩, ⟨D, t, .buy q2 p2 f2⟩]) := by
+    intro x hx
+    simp only [List.mem_append, List.mem_cons, List.mem_nil_iff, or_false] at hx
+    rcases hx with hx | rfl | rfl
+    · exact hne x (by simp [hx])
+    · intro _; rfl
+    · intro _; rfl
+  have hone' : oneSellPerDay r.ticker (l0 ++ [⟨D, t, .buy q1 p1 f1⟩, ⟨D, t, .buy q2 p2 f2⟩]) := by
+    unfold oneSellPerDay at hone ⊢
+    rw [sellOrds_append] at hone ⊢
+    have e1 : sellOrds r.ticker [⟨D, t, .buy q p f⟩] = [] := by simp [sellOrds, so, Op.isSell]
+    have e2 : sellOrds r.ticker [⟨D, t, .buy q1 p1 f1⟩, ⟨D, t, .buy q2 p2 f2⟩] = [] := by simp [sellOrds, so, Op.isSell]
+    rw [e2]; rw [e1] at hone; exact hone
+  have c := C01.C01_ledger_raw _ hw hd rs h r hr hne hone
+  have c' := C01.C01_ledger_raw _ hw' hd' rs' h' r' hr' (ht ▸ hne') (ht ▸ hone')
+  simp only at c c'
+  have hid : Spec.identify bnbWindowDays r.ticker (l0 ++ [⟨D, t, .buy q1 p1 f1⟩, ⟨D, t, .buy q2 p2 f2⟩])
+      = Spec.identify bnbWindowDays r.ticker (l0 ++ [⟨D, t, .buy q p f⟩]) := by
+    unfold Spec.identify
+    rw [table_fills r.ticker t D q1 p1 f1 q2 p2 f2 q p f hq hc hf l0]
+  rw [ht, hid] at c'
+  exact ⟨by rw [c'.2.2, c.2.2], by rw [← c'.1, ← c.1], by rw [← c'.2.1, ← c.2.1]⟩
+
 
 end Cgt.C06
